@@ -93,4 +93,11 @@ CHECKS = {
                  'requests reach ServeHTTP directly with crafted method / version / headers'],
  'jobs': [{'pkg': 'c12', 'run': 'TestDispatch', 'checks': {'quick': 30000, 'thorough': 1200000}, 'shards': {'quick': 4, 'thorough': 16}},
           {'pkg': 'c12', 'run': 'TestSpecAgreement', 'checks': {'quick': 6000, 'thorough': 200000}, 'shards': {'quick': 4, 'thorough': 16}}]},
+    'C10': {'level': 'exploration',
+ 'assumptions': ['time is virtual (testing/synctest bubble), so the remaining time at encoding and the start instant at decoding are exact',
+                 "grey spellings (signed numbers, zero, more leading zeros than the grammar's digit limit, remaining time below one Connect millisecond) are "
+                 'only required not to panic and to yield either a rejection or a run'],
+ 'jobs': [{'pkg': 'c10', 'run': 'TestEncode', 'checks': {'quick': 12000, 'thorough': 640000}, 'shards': {'quick': 4, 'thorough': 16}},
+          {'pkg': 'c10', 'run': 'TestDecode', 'checks': {'quick': 16000, 'thorough': 640000}, 'shards': {'quick': 4, 'thorough': 16}},
+          {'pkg': 'c10', 'run': 'TestEndToEnd', 'checks': {'quick': 4000, 'thorough': 160000}, 'shards': {'quick': 4, 'thorough': 16}}]},
 }
